@@ -28,8 +28,15 @@ def r1_check_before_mutate(idx, r):
     fresh = any(isinstance(s.value, ast.Call) and norm(s.value) == "self.__class__()" for s in iter_stores(md.node) if s.attr == "mergedData")
     rets = [norm(n.value) for n in walk_local(md.node) if isinstance(n, ast.Return)]
     r.require(fresh and set(rets) == {"mergedData"}, "_Metadata.merge:fresh-result", md, msg="the merged metadata is a new instance")
-    raise_in = next((n for n in walk_local(md.node) if isinstance(n, ast.If) and "numpyHackForEqual(selfVal, otherVal)" in norm(n.test) and any(isinstance(x, ast.Raise) for x in n.body)), None)
-    r.require(raise_in is not None and norm(raise_in.test).startswith("not "), "_Metadata.merge:conflict-raises", md, node=raise_in, msg="differing values of a shared key must raise")
+    # the raise sits on the path where the two values are NOT equal (whichever way the if/else is written)
+    rz = [n for n in walk_local(md.node) if isinstance(n, ast.Raise)]
+    pol = None
+    for x in rz:
+        for t, pos in path_conditions(md.node, x):
+            tt = t.operand if isinstance(t, ast.UnaryOp) and isinstance(t.op, ast.Not) else t
+            if "numpyHackForEqual(selfVal, otherVal)" in norm(tt):
+                pol = pos if tt is t else not pos
+    r.require(pol is False, "_Metadata.merge:conflict-raises", md, node=rz[0] if rz else None, msg="differing values of a shared key must raise")
     loop = next((n for n in md.node.body if isinstance(n, ast.For)), None)
     r.require(loop is not None and norm(loop.iter) == "set(list(self.keys()) + list(other.keys())) - skippedKeys", "_Metadata.merge:all-keys", md, node=loop, msg="every key of either side (minus the documented skipped ones) is compared")
     xm = idx.method(XSC + ".XSCollection", "merge")
@@ -80,7 +87,7 @@ def r2_write_once(idx, r):
     if setter is None:
         raise AnchorMissing("createImmutableProperty._setter")
     rs = [n for n in walk_local(setter) if isinstance(n, ast.Raise)]
-    okr = len(rs) == 1 and [(norm(t), p) for t, p in path_conditions(setter, rs[0])] == [("hasattr(self, privateName)", True), ("currentVal is None or value is None", False), ("not numpyHackForEqual(currentVal, value)", True)]
+    okr = len(rs) == 1 and [(norm(t), p) for t, p in path_conditions(setter, rs[0])] == [("hasattr(self, privateName)", True), ("currentVal is None or value is None", False), ("numpyHackForEqual(currentVal, value)", False)]
     r.require(okr, "immutable-setter:conflict-raises", cp, node=rs[0] if rs else None, msg="setting a different value over an existing one must raise")
     keep = next((c for c in walk_local(setter) if isinstance(c, ast.Call) and dotted(c.func) == "setattr" and isinstance(c.args[2], ast.IfExp)), None)
     r.require(keep is not None and norm(keep.args[2]) == "value if currentVal is None else currentVal", "immutable-setter:keeps-existing", cp, node=keep, msg="an existing value is kept; only an unset one is filled")
@@ -218,7 +225,8 @@ def r5_derived(idx, r):
     m = idx.module(XSC)
     absx = idx.fold(m, m.consts["ABSORPTION_XS"])
     ga = idx.method(XSC + ".XSCollection", "getAbsorptionXS")
-    lst = next((s.value for s in iter_stores(ga.node) if isinstance(s.value, ast.List)), None)
+    from ..astutil import returned_values
+    lst = next((v for v, _ in returned_values(ga.node) if isinstance(v, ast.List)), None) or next((s.value for s in iter_stores(ga.node) if isinstance(s.value, ast.List)), None)
     got = [e.attr for e in lst.elts if isinstance(e, ast.Attribute) and norm(e.value) == "self"] if lst is not None else []
     r.require(sorted(got) == sorted(absx) and len(got) == len(set(got)), "absorption-members", ga, msg=f"getAbsorptionXS must list exactly the members of ABSORPTION_XS {sorted(absx)}: {sorted(got)}")
     ca = idx.method(XSC + ".MacroscopicCrossSectionCreator", "_computeAbsorptionXS")
